@@ -124,7 +124,10 @@ SPECS = [
          loops={1: {
              'inv': ["local('____index') == rlen() - _i",
                      "S() == acc(_i)",
-                     "scope_frame('i')", "in_local('i')"],
+                     "scope_frame('i')", "in_local('i')",
+                     # repeat['i'] keeps describing THIS loop while its body runs ("also in
+                     # nested loops ... with reused variable names")
+                     "repeat_kept('i')"],
              # acc(i): text after i repetitions -- DEFINITION (separator between repetitions,
              # none after the last one)
              'lemmas': ["acc(0) == S0() + 'A'",
@@ -137,6 +140,9 @@ SPECS = [
              "rlen() > 0 or S() == S0() + 'AB'",
              "visible('i') is visible0('i')",
              "scope_frame('i')",
+             "repeat_kept('i')",
+             # an enclosing loop over the same name finds its own entry again afterwards
+             "repeat_restored('i')",
          ],
          raises={'*': {'ensures': ["raised('e4') or raised('h1') or (repeat_failed() and evals(4) == 1 "
                                    "and holes(1) == 0 and val(4) is not None)"]}},
